@@ -26,6 +26,7 @@ package main
 
 import (
 	"fmt"
+	"regexp"
 	"go/ast"
 	"go/constant"
 	"go/token"
@@ -240,6 +241,17 @@ var d8entries = []d8entry{
 	{"", "PublicKey.X", "pubKeyX", true, "", "", "", "", ""},
 	{"", "PublicKey.Y", "pubKeyY", true, "", "", "", "", ""},
 	{"", "Signature.BruteforceRecoveryCode", "bruteforceRecoveryCode", false, "SigErr", "", "", "sig", "8"},
+	// seventh tranche: the non-kernel wrappers of modnscalar.go / field.go (their kernels are T1)
+	{"", "ModNScalar.Mul", "scalarMul", true, "", "", "", "s", ""},
+	{"", "ModNScalar.Add", "scalarAdd", true, "", "", "", "s", ""},
+	{"", "ModNScalar.Negate", "scalarNegate", true, "", "", "", "s", ""},
+	{"", "ModNScalar.Square", "scalarSquare", true, "", "", "", "s", ""},
+	{"", "ModNScalar.SquareVal", "scalarSquareVal", true, "", "", "", "s", ""},
+	{"", "ModNScalar.Bytes", "scalarBytes", true, "", "", "", "", ""},
+	{"", "ModNScalar.SetByteSlice", "scalarSetByteSliceGen", true, "", "", "", "s", ""},
+	{"", "ModNScalar.InverseValNonConst", "scalarInverseValNonConst", true, "", "", "", "s", ""},
+	{"", "ModNScalar.InverseNonConst", "scalarInverseNonConst", true, "", "", "", "s", ""},
+	{"", "FieldVal.SetByteSlice", "fieldSetByteSliceGen", true, "", "", "", "f", ""},
 	// fifth tranche: extended keys
 	{"ecckd", "KeyVersion.IsPrivate", "versionIsPrivateGen", true, "", "", "", "", ""},
 	{"ecckd", "KeyVersion.ToPublic", "versionToPublicGen", true, "", "", "", "", ""},
@@ -249,6 +261,14 @@ var d8entries = []d8entry{
 	{"ecckd", "serializeCompressedEcdsa", "serializeCompressedEcdsa", true, "", "", "", "", ""},
 	{"ecckd", "ExtendedKey.pubKeyBytes", "pubKeyBytes", true, "", "", "", "", ""},
 	{"ecckd", "ExtendedKey.ChildWithIL", "childWithILGen", false, "BipErr", "(O : Oracles)", "O", "", ""},
+	// eighth tranche: thin exported front ends
+	{"ecckd", "ExtendedKey.Child", "childGen", false, "BipErr", "(O : Oracles)", "O", "", ""},
+	{"ecckd", "FromSeed", "fromSeedGen", false, "BipErr", "(O : Oracles)", "O", "", ""},
+	{"ecckd", "ExtendedKey.Public", "publicGen", false, "BipErr", "", "", "", ""},
+	{"", "PrivateKey.ECDH", "ecdhMethod", false, "Unit", "", "", "", ""},
+	{"", "Signature.Export", "exportGen", true, "", "", "", "", ""},
+	{"", "Sign", "signGen", false, "Unit", "", "", "", ""},
+	{"", "GeneratePrivateKeyFromRand", "generatePrivateKeyFromRand", false, "IoErr", "", "", "", ""},
 }
 
 type d8 struct {
@@ -272,6 +292,7 @@ type d8 struct {
 	pv      map[string]string       // generated package-level byte constants (shared by all entries)
 	errTerm map[types.Object]string // error variables holding a run-time error value
 	reader  string                  // root of the io.Reader parameter (its final state is part of every result)
+	stubOK  bool                    // all parameters were understood (a typed stub can be emitted if the body fails)
 	inFold  int                     // depth of fold bodies being translated (no early exit possible there)
 	facts   map[string]bool         // "a≥b": known order facts between integer terms (dominating guards, max idiom)
 	lenDef  map[string]string       // Lean variable defined as `<bytes term>.length`
@@ -834,6 +855,21 @@ func (d *d8) expr(e ast.Expr, pre *[]*dnode) *dv {
 
 func (d *d8) composite(cl *ast.CompositeLit, pre *[]*dnode) *dv {
 	k, _ := d.kindOf(d.p.info.Types[cl].Type)
+	if k == "bytes" { // [N]byte{…} / []byte{…} with constant elements
+		var es []string
+		for _, el := range cl.Elts {
+			c, ok := d.constVal(el)
+			if !ok {
+				d.fail(cl, "byte literal with a computed element")
+				break
+			}
+			es = append(es, c)
+		}
+		if arr, isArr := d.p.info.Types[cl].Type.Underlying().(*types.Array); isArr && int(arr.Len()) != len(es) {
+			d.fail(cl, "array literal shorter than its type")
+		}
+		return &dv{kind: "bytes", term: "([" + strings.Join(es, ", ") + "] : Bytes)"}
+	}
 	fs, ok := structFields[k]
 	keyed := len(cl.Elts) > 0
 	for _, el := range cl.Elts {
@@ -1172,6 +1208,10 @@ func (d *d8) call(x *ast.CallExpr, pre *[]*dnode) *dv {
 		return set(recv, "nneg "+recv.read())
 	case "ModNScalar.NegateVal":
 		return set(recv, "nneg "+arg(0).term)
+	case "ModNScalar.SquareVal":
+		return set(recv, "nmul "+arg(0).term+" "+arg(0).term)
+	case "ModNScalar.Square":
+		return set(recv, "nmul "+recv.read()+" "+recv.read())
 	case "ModNScalar.InverseValNonConst":
 		return set(recv, "ninv "+arg(0).term)
 	case "ModNScalar.InverseNonConst":
@@ -1306,6 +1346,17 @@ func (d *d8) call(x *ast.CallExpr, pre *[]*dnode) *dv {
 	case "PublicKey.SerializeCompressed":
 		pk := d.expr(recvX, pre)
 		return &dv{kind: "bytes", term: "(serializeCompressed " + pk.term + ".1 " + pk.term + ".2)"}
+	case "constantTimeMin":
+		_, w := d.kindOf(d.p.info.Types[x].Type)
+		return &dv{kind: "int", term: "(min " + arg(0).term + " " + arg(1).term + ")", width: w}
+	case "Int.ModInverse":
+		// big.Int.ModInverse(g, n) for the PRIME modulus N: the inverse when g is not a multiple of N, otherwise the
+		// receiver is left as it is (math/big returns nil and does not touch z)
+		if arg(1).term != "N" {
+			d.fail(x, "ModInverse with a modulus other than the group order")
+		}
+		g := arg(0).term
+		return set(recv, "(if "+g+" % N == 0 then "+recv.read()+" else ninv "+g+")")
 	case "doubleSha256":
 		return &dv{kind: "bytes", term: "(doubleSha256 " + bytesArg(0) + ")"}
 	case "KeyVersion.IsPrivate":
@@ -1601,6 +1652,12 @@ func (d *d8) simple(s ast.Stmt, pre *[]*dnode) bool {
 				}
 				l := d.lvalue(st.Lhs[0], pre)
 				d.write(l, v.term, pre)
+				// x = y[:min(a, C)] : afterwards len(x) ≤ C
+				if sl, ok := st.Rhs[0].(*ast.SliceExpr); ok && sl.Low == nil && sl.High != nil && v.loc != nil && len(l.path) == 0 {
+					if m := regexp.MustCompile(`^\(min (.+) (\d+)\)$`).FindStringSubmatch(v.loc.hi); m != nil {
+						d.facts[m[2]+"≥"+l.root+".length"] = true
+					}
+				}
 				return false
 			case token.ADD_ASSIGN, token.XOR_ASSIGN, token.OR_ASSIGN, token.AND_ASSIGN:
 				l := d.lvalue(st.Lhs[0], pre)
@@ -1868,6 +1925,24 @@ func (d *d8) condFacts(c ast.Expr) []string {
 	return nil
 }
 
+// isFallibleEntry: fn is another translated entry that returns a DR outcome
+func (d *d8) isFallibleEntry(fn *types.Func) bool {
+	sig := fn.Type().(*types.Signature)
+	name := fn.Name()
+	if sig.Recv() != nil {
+		_, tn := namedOf(sig.Recv().Type())
+		name = tn + "." + fn.Name()
+	}
+	for i := range d8entries {
+		ent := &d8entries[i]
+		if ent.key == name && !ent.total && fn.Pkg() != nil && (fn.Pkg().Name() == ent.pkg || (ent.pkg == "" && fn.Pkg().Name() == "secp256k1")) &&
+			!(ent.key == d.ent.key && ent.pkg == d.ent.pkg) {
+			return true
+		}
+	}
+	return false
+}
+
 func (d *d8) retNode(st *ast.ReturnStmt, pre *[]*dnode) *dnode {
 	if d.retK != nil {
 		d.fail(st, "return inside an inlined helper")
@@ -1889,11 +1964,44 @@ func (d *d8) retNode(st *ast.ReturnStmt, pre *[]*dnode) *dnode {
 		return tupleOf(parts)
 	}
 	if d.ent.total {
+		if d.ent.out != "" && n > 0 {
+			// a method that mutates its receiver and returns something: a pointer to the receiver itself (chaining) is
+			// just the receiver's final value; anything else is returned together with it
+			if _, isPtr := d.results.At(0).Type().(*types.Pointer); isPtr && n == 1 {
+				v := d.expr(res[0], pre)
+				if v.loc == nil || v.loc.root != d.ent.out {
+					d.fail(st, "a total entry with an out-parameter returns another object")
+				}
+				return d.rt(d.ent.out)
+			}
+			return d.rt("(" + val(res) + ", " + d.ent.out + ")")
+		}
 		return d.rt(val(res))
+	}
+	if len(res) == 1 && n >= 1 {
+		// return f(…) with f another fallible entry of the same shape: its outcome is the outcome
+		if call, ok := res[0].(*ast.CallExpr); ok {
+			if fn, _ := d.callee(call); fn != nil && d.isFallibleEntry(fn) {
+				v := d.expr(call, pre)
+				if v.kind == "entry" && !d8entries[v.width].total {
+					if d8entries[v.width].errT != d.ent.errT {
+						d.fail(st, "pass-through of a callee with another error type")
+					}
+					return d.rt0(v.term)
+				}
+				d.fail(st, "multi-value return of a call outside the T8 subset")
+				return d.rt(".panic")
+			}
+		}
 	}
 	switch {
 	case lastK == "err":
 		last := res[n-1]
+		if id, ok := last.(*ast.Ident); ok && id.Name != "nil" {
+			if kn, ok := d.known[d.obj(id)]; ok && !kn {
+				return d.rt(".ok " + val(res[:n-1])) // an error variable that is nil on this path
+			}
+		}
 		if id, ok := last.(*ast.Ident); ok && id.Name == "nil" {
 			if n == 1 && d.ent.out != "" {
 				return d.rt(".ok " + d.ent.out) // the receiver / out-parameter as left by the function
@@ -2200,7 +2308,21 @@ func (d *d8) fallibleAssign(st *ast.AssignStmt, next func() *dnode) *dnode {
 	errPat := ".err _"
 	var errBody *dnode
 	if flagged {
-		errBody = next()
+		if lk, _ := d.kindOf(res.At(nres - 1).Type()); lk == "err" && ent.errT == d.ent.errT {
+			// the callee's error value may be returned as it is
+			id := st.Lhs[nres-1].(*ast.Ident)
+			o := d.p.info.Defs[id]
+			if o == nil {
+				o = d.p.info.Uses[id]
+			}
+			en := d.tmp("e")
+			errPat = ".err " + en
+			d.errTerm[o] = en
+			errBody = next()
+			delete(d.errTerm, o)
+		} else {
+			errBody = next()
+		}
 	} else {
 		errBody = d.rt(".err e")
 		errPat = ".err e"
@@ -2678,8 +2800,8 @@ func (d *d8) retType() string {
 
 // ---------------------------------------------------------------- entry point
 
-func passDrivers(pkgs []*Pkg) (string, []string) {
-	var errs []string
+func passDrivers(pkgs []*Pkg) (string, []string, []string) {
+	var errs, warns []string
 	var sb strings.Builder
 	sb.WriteString("import Secp.Model.Schnorr\nimport Secp.Model.Ecdsa\nimport Secp.Model.PrivKey\nimport Secp.Model.Adaptor\nimport Secp.Model.DriverRt\n/- GENERATED by tools/gotr (pass T8) from /repo — do not edit. -/\nset_option linter.unusedVariables false\nnamespace Secp.Gen.Drivers\nopen Secp.Spec Secp.Model\n\n")
 	pv := map[string]string{}
@@ -2709,7 +2831,10 @@ func passDrivers(pkgs []*Pkg) (string, []string) {
 			loopVar: map[types.Object]string{}, pv: pv, errTerm: map[types.Object]string{}, facts: map[string]bool{}, lenDef: map[string]string{}}
 		d.results = p.info.Defs[fd.Name].Type().(*types.Signature).Results()
 		var psig []string
+		var paramNames []string
+		d.stubOK = true
 		addParam := func(id *ast.Ident) {
+			paramNames = append(paramNames, id.Name)
 			o := p.info.Defs[id]
 			k, _ := d.kindOf(o.Type())
 			if leanType[k] == "" {
@@ -2753,6 +2878,32 @@ func passDrivers(pkgs []*Pkg) (string, []string) {
 			d.fail(fd, "function body falls off its end")
 			return d.rt(".panic")
 		})
+		if d.err != nil && len(psig) == len(paramNames) && d.stubOK {
+			// CONTAINMENT: this function left the translator's subset.  Emit a stub of the right type that is wrong on
+			// purpose (`default` / `.undef`): Gen/Drivers.lean still elaborates, the `*_regenerated` theorem about THIS
+			// function (and what is proved through it) no longer checks, and properties that do not depend on it keep
+			// their proofs.  The failure is reported in T8Failures.txt and shown by ./check.
+			warns = append(warns, d.err.Error())
+			stub := "default"
+			if !ent.total {
+				stub = ".undef"
+				if d.reader != "" {
+					stub = "(.undef, " + d.reader + ")"
+				}
+			}
+			rt := d.retType()
+			if ent.out != "" && ent.total {
+				rt = d.stype[ent.out]
+				if d.results.Len() > 0 {
+					if _, isPtr := d.results.At(0).Type().(*types.Pointer); !(isPtr && d.results.Len() == 1) {
+						rt = "(" + d.retType() + ") × " + d.stype[ent.out]
+					}
+				}
+			}
+			fmt.Fprintf(&body, "/-- %s: TRANSLATION FAILED (%s) — stub, wrong on purpose -/\ndef %s %s %s : %s :=\n  %s\n\n", ent.key,
+				strings.ReplaceAll(d.err.Error(), "-/", "- /"), ent.lean, ent.extra, strings.Join(psig, " "), rt, stub)
+			continue
+		}
 		if d.err != nil {
 			errs = append(errs, d.err.Error())
 			continue
@@ -2763,6 +2914,11 @@ func passDrivers(pkgs []*Pkg) (string, []string) {
 		rt := d.retType()
 		if outName != "" && ent.total {
 			rt = d.stype[outName]
+			if d.results.Len() > 0 {
+				if _, isPtr := d.results.At(0).Type().(*types.Pointer); !(isPtr && d.results.Len() == 1) {
+					rt = "(" + d.retType() + ") × " + d.stype[outName]
+				}
+			}
 		}
 		fmt.Fprintf(&body, "/-- %s (%s) -/\ndef %s %s %s : %s :=\n", ent.key, strings.TrimPrefix(p.pos(fd), p.dir+"/"), ent.lean, ent.extra, strings.Join(psig, " "), rt)
 		tree.print(&body, "  ")
@@ -2778,5 +2934,5 @@ func passDrivers(pkgs []*Pkg) (string, []string) {
 	}
 	sb.WriteString(body.String())
 	sb.WriteString("end Secp.Gen.Drivers\n")
-	return sb.String(), errs
+	return sb.String(), errs, warns
 }
